@@ -338,6 +338,8 @@ type World struct {
 	serverSocks map[*simnet.UDPConn]bool
 	// EventDelay[kind] is slept inside that lifecycle callback (virtual time yield point).
 	EventDelay map[string]time.Duration
+	// EventYield: kinds whose slow callback yields instead of sleeping (SetEventYield).
+	EventYield map[string]bool
 	// OnEvent is called inside each lifecycle callback after recording.
 	OnEvent func(ev LifeEvent)
 	// OnEventStart is called inside each lifecycle callback before it turns slow (EventDelay).
@@ -372,6 +374,7 @@ func (w *World) event(ev LifeEvent) {
 	w.mu.Lock()
 	w.events = append(w.events, ev)
 	d := w.EventDelay[ev.Kind]
+	yield := w.EventYield[ev.Kind]
 	cb := w.OnEvent
 	cb0 := w.OnEventStart
 	w.callbacksInFlight++
@@ -385,7 +388,7 @@ func (w *World) event(ev LifeEvent) {
 		// never advance and the sleep never end. perm-/chan-/chan+ run under allocation (and, during
 		// Close, manager) locks: there the callback yields the processor many times instead, which
 		// lets every other goroutine run while it is "slow" without needing time to pass.
-		if w.Bubble && (ev.Kind == "perm-" || ev.Kind == "chan-" || ev.Kind == "chan+") {
+		if w.Bubble && (ev.Kind == "perm-" || ev.Kind == "chan-" || ev.Kind == "chan+" || yield) {
 			for i := 0; i < 300; i++ {
 				runtime.Gosched()
 			}
@@ -405,6 +408,17 @@ func (w *World) event(ev LifeEvent) {
 func (w *World) SetOnEventStart(f func(ev LifeEvent)) {
 	w.mu.Lock()
 	w.OnEventStart = f
+	w.mu.Unlock()
+}
+
+// SetEventYield makes the slow callback of a kind yield the processor instead of sleeping (for
+// callbacks that a scenario reaches with a library mutex held, see event()).
+func (w *World) SetEventYield(kind string, on bool) {
+	w.mu.Lock()
+	if w.EventYield == nil {
+		w.EventYield = map[string]bool{}
+	}
+	w.EventYield[kind] = on
 	w.mu.Unlock()
 }
 
